@@ -107,6 +107,25 @@ def rand_pattern(rng, t):
     return rand_tree(rng, 2, 4)
 
 
+def self_nested(rng, mk_tree=None):
+    """(target, pattern, substitute) where the substitute is an element of the list pattern and the target holds
+    the pattern nested in itself at the substitute's place: a bottom-up substitution would re-match its own output"""
+    mk = mk_tree or (lambda: rand_tree(rng, 2, 3))
+    sub = rng.choice([rand_atom(rng), mk()])
+    kids = [mk() for _ in range(rng.randrange(0, 3))]
+    i = rng.randrange(0, len(kids) + 1)
+    pat = [0] + kids[:i] + [sub] + kids[i:]
+    inner = pat
+    for _ in range(rng.randrange(1, 4)):
+        inner = [0] + kids[:i] + [inner] + kids[i:]
+    around = [mk() for _ in range(rng.randrange(0, 3))]
+    j = rng.randrange(0, len(around) + 1)
+    target = [0] + around[:j] + [inner] + around[j:]
+    if rng.random() < 0.3:
+        target = [0, mk(), target]
+    return target, pat, sub
+
+
 def case(prof, op, *args):
     return sx_str([prof, [], op] + list(args))
 
@@ -178,6 +197,10 @@ def api_streams(seed, tier):
             cases.append(case(prof, 8, p, t))
             cases.append(case(prof, 9, t, p))
             cases.append(case(prof, 6, t, p, rng.randrange(0, 5)))
+        if rng.random() < 0.3:
+            tt, pp, ss = self_nested(rng)
+            cases.append(case(prof, 4, tt, pp, ss))
+            cases.append(case(prof, 4, tt, ss, pp))
         if rng.random() < 0.05:
             cases.append(case(prof, 2, t, rng.choice([2 ** 63, 2 ** 64 - 1, 2 ** 32])))
             cases.append(case(prof, 3, t, X, rng.choice([2 ** 63, 2 ** 64 - 1, 2 ** 32])))
@@ -236,10 +259,13 @@ def instr_streams(seed, tier):
                 order = rng.choice([[target, pat, sub], [target, sub, pat], [pat, target, sub]])
                 st["code"] = order + st["code"]
                 st["int"] = [rng.randrange(-2 * len(subs) - 2, 2 * len(subs) + 3)] + st["int"]
+            elif r < 0.8 and nm in ("CODE.SUBST", "CODE.CONTAINS", "CODE.MEMBER", "CODE.POSITION", "CODE.CONTAINER"):
+                tt, pp, ss = self_nested(rng, lambda: stepgen.rand_item(rng, safe, 2, 3))
+                st["code"] = rng.choice([[tt, pp, ss], [tt, ss, pp], [pp, tt, ss], [ss, pp, tt], [pp, ss, tt], [ss, tt, pp]]) + st["code"]
             st["exec"] = [I(nm)] + st["exec"]
             cases.append(case_run(rng.randrange(2), state(**st), 0, 1))
     return [Stream("code-instructions", "run", "run.check", cases,
-                   "one step of each CODE list-surgery instruction by NAME on random states; in 60% of the cases the CODE operands are related (pattern = a sub-item of the target or the target itself) and the index ranges over [-2S, 2S]")]
+                   "one step of each CODE list-surgery instruction by NAME on random states; in 60% of the cases the CODE operands are related (pattern = a sub-item of the target or the target itself) and the index ranges over [-2S, 2S]; for SUBST / search instructions 20% self-nested operand triples (substitute inside the pattern, pattern nested in itself inside the target)")]
 
 
 KNOWN_ARGS = "pair"
